@@ -383,13 +383,15 @@ func try(fn func()) (p string) {
 	return "no-panic"
 }
 
-// tryp reports only whether fn panicked: the property demands that unhashable dynamic keys
-// panic, not a particular error value.
+// tryp reports the class of the panic (Go: run-time error "hash of unhashable type T"; the
+// operand spelling is not compared).
 func tryp(fn func()) string {
-	if try(fn) == "no-panic" {
-		return "no-panic"
+	r := try(fn)
+	const cls = "RE:hash of unhashable type"
+	if len(r) >= len(cls) && r[:len(cls)] == cls {
+		return cls
 	}
-	return "panicked"
+	return r
 }
 
 func extraCases() {
